@@ -93,8 +93,9 @@ Qed.
 Definition usable3 (g : n3group) (s : name) (oh : bytes) : Prop := chk g s = Ok (CSome oh).
 Definition matches3 (g : n3group) (oh : bytes) (n : name) : Prop :=
   oh = hof g n /\ hasn rt_DNAME g = false /\ (hasn rt_NS g = true -> hasn rt_SOA g = true).
+(* covered: strictly between the owner hash and the next hash (both ends excluded) *)
 Definition covers3 (g : n3group) (oh : bytes) (n : name) : Prop :=
-  oh <> hof g n /\ nsec3_in_range (hof g n) oh (h_next g) = true.
+  oh <> hof g n /\ hof g n <> h_next g /\ nsec3_in_range (hof g n) oh (h_next g) = true.
 
 Lemma bytes_eqb_spec a b : bytes_eqb a b = true <-> a = b.
 Proof. unfold bytes_eqb. rewrite <- lex_cmp_eq. destruct (lex_cmp a b); split; congruence. Qed.
@@ -141,8 +142,8 @@ Proof.
         destruct (nsec3_in_range (hof g n) oh (h_next g)) eqn:R.
         -- destruct cand; [|inversion E; exact I].
            destruct (h_optout g) eqn:O; inversion E.
-           ++ split; [reflexivity|]. split; [reflexivity|]. exists g, oh. split; [left; reflexivity|]. split; [exact C|]. split; [split; assumption|exact O].
-           ++ split; [reflexivity|]. split; [reflexivity|]. split; [reflexivity|]. exists g, oh. split; [left; reflexivity|]. split; [exact C|]. split; [split; assumption|exact O].
+           ++ split; [reflexivity|]. split; [reflexivity|]. exists g, oh. split; [left; reflexivity|]. split; [exact C|]. split; [split; [exact Hne|split; [apply (nsec3_in_range_strict _ _ _ R)|exact R]]|exact O].
+           ++ split; [reflexivity|]. split; [reflexivity|]. split; [reflexivity|]. exists g, oh. split; [left; reflexivity|]. split; [exact C|]. split; [split; [exact Hne|split; [apply (nsec3_in_range_strict _ _ _ R)|exact R]]|exact O].
         -- apply Lift, IH, E.
 Qed.
 
@@ -224,7 +225,7 @@ Qed.
 Lemma no_ce_sound t gs s : forall r e,
   nsec3_for_not_exists_no_ce H ci cb t gs s = Ok (r, e) ->
   match r with
-  | NcDNE => exists g oh, In g gs /\ usable3 g s oh /\ nsec3_in_range (hof g t) oh (h_next g) = true /\ h_optout g = false
+  | NcDNE => exists g oh, In g gs /\ usable3 g s oh /\ covers3 g oh t /\ h_optout g = false
   | _ => True
   end.
 Proof.
@@ -232,16 +233,17 @@ Proof.
   - inversion E. exact I.
   - destruct (chk g s) as [c| | |] eqn:C; simpl in E; try discriminate.
     assert (Lift : forall r, match r with
-        | NcDNE => exists g0 oh, In g0 gs /\ usable3 g0 s oh /\ nsec3_in_range (hof g0 t) oh (h_next g0) = true /\ h_optout g0 = false | _ => True end ->
+        | NcDNE => exists g0 oh, In g0 gs /\ usable3 g0 s oh /\ covers3 g0 oh t /\ h_optout g0 = false | _ => True end ->
         match r with
-        | NcDNE => exists g0 oh, In g0 (g :: gs) /\ usable3 g0 s oh /\ nsec3_in_range (hof g0 t) oh (h_next g0) = true /\ h_optout g0 = false | _ => True end).
+        | NcDNE => exists g0 oh, In g0 (g :: gs) /\ usable3 g0 s oh /\ covers3 g0 oh t /\ h_optout g0 = false | _ => True end).
     { intros [| | |]; try exact (fun x => x). intros (g0 & oh & I0 & R). exists g0, oh. split; [right; exact I0|exact R]. }
     destruct c as [|ins e0|oh].
     + apply Lift, (IH _ _ E).
     + inversion E. destruct ins; exact I.
     + destruct (nsec3_in_range (hof g t) oh (h_next g)) eqn:R.
       * destruct (h_optout g) eqn:O; inversion E; [exact I|].
-        exists g, oh. split; [left; reflexivity|]. split; [exact C|]. split; [exact R|exact O].
+        exists g, oh. split; [left; reflexivity|]. split; [exact C|]. split; [|exact O].
+        pose proof (nsec3_in_range_strict _ _ _ R) as [S1 S2]. split; [intros X; apply S1; symmetry; exact X|split; [exact S2|exact R]].
       * apply Lift, (IH _ _ E).
 Qed.
 
@@ -251,7 +253,7 @@ Theorem n3_nxdomain_sound t gs s ce e :
   nsec3_for_nxdomain H ci cb t gs s = Ok (N3DNE ce, e) ->
   established gs s ce /\
   (exists l, suffix_of (l :: ce) t /\ exists g oh, In g gs /\ usable3 g s oh /\ covers3 g oh (l :: ce) /\ h_optout g = false) /\
-  exists g oh, In g gs /\ usable3 g s oh /\ nsec3_in_range (hof g (star_label :: ce)) oh (h_next g) = true /\ h_optout g = false.
+  exists g oh, In g gs /\ usable3 g s oh /\ covers3 g oh (star_label :: ce) /\ h_optout g = false.
 Proof.
   unfold nsec3_for_nxdomain. intros E.
   destruct (nsec3_for_not_exists H ci cb t gs s) as [[st e1]| | |] eqn:E1; simpl in E; try discriminate.
